@@ -28,4 +28,4 @@ For each change deliver, under {wt}/seed/<n>/ (n = {NS}):
   - patch.diff : `git diff` of the change against the worktree's HEAD (source files only, applies with `git apply`),
   - demo_test.go (or demo/main.go) : a demonstration that FAILS with the change applied and PASSES without it (say in a comment at the top where to place it and how to run it, e.g. "copy to {wt}/circuit/demo_test.go and run go test -run TestDemo ./circuit/"),
   - notes.md : what the change does, why the existing tests do not notice, what exactly is needed to make it manifest.
-Before finishing: for each change verify all of (1)-(3) yourself, both directions of the demo (fails with, passes without), then leave the worktree source files RESTORED to HEAD (git checkout -- . ; only the seed/ directory remains, untracked). Report briefly what you made.""")
+Never use `git stash` (the stash is shared between several worktrees of this repository and others work in parallel): switch between the patched and the unpatched tree with `git apply` / `git apply -R` or `git checkout -- <files>` only. Before finishing: for each change verify all of (1)-(3) yourself, both directions of the demo (fails with, passes without), then leave the worktree source files RESTORED to HEAD (git checkout -- . ; only the seed/ directory remains, untracked). Report briefly what you made.""")
